@@ -69,7 +69,18 @@ class Ctx:
                 self.analysed[k] = None
             else:
                 self.analysed[k] = analyze(db, self.inlined(db, b), self.models)
+                self._engine_ob(cfg, key, self.analysed[k])
         return self.analysed[k]
+
+    def _engine_ob(self, cfg, key, a):
+        """An analysis that did not reach its fixpoint decides nothing: reported once per body as UNKNOWN (a violation on the property being checked -
+        sound, and it turns a would-be hang on unusually shaped code into a verdict that names the body)."""
+        if a is None:
+            return
+        fx = [u for u in a.unknown if u and u[0] == "fixpoint"]
+        if fx and (cfg, key) not in getattr(self, "_engine_seen", set()):
+            self.__dict__.setdefault("_engine_seen", set()).add((cfg, key))
+            self.ob("ENGINE", key, UNKNOWN, "the abstract interpretation of this body did not converge (%s): nothing about it is decided" % fx[0][2], at=a.body.get("at"), cfg=cfg)
 
     def inlined(self, db, b, keep=(), force=()):
         """`b` with calls to the crate's private (non-exported, unmodelled) helpers expanded (mirxf.inline_calls); helpers named in
@@ -112,6 +123,7 @@ class Ctx:
                 if split:
                     b2 = treeify(b2)
                 self.analysed[k] = analyze(db, b2, self.models, entry_facts)
+                self._engine_ob(cfg, key, self.analysed[k])
         return self.analysed[k]
 
     def is_helper(self, cfg, b):
